@@ -138,7 +138,7 @@ Theorem c03_model_logs_complete acts : clean acts = true ->
   quiescent (run init acts) = true -> closed (run init acts) = true -> complete (trace init acts) = true.
 Proof. exact (complete_run acts). Qed.
 
-(* ---- what the code does NOT guarantee (each is a behaviour of the model, i.e. of the code as it is) ---- *)
+(* ---- rejected registrations; and what the code does NOT guarantee (a behaviour of the model, i.e. of the code as it is) ---- *)
 
 (* a dial whose registration fails (descriptor beyond the connection table, or epoll_ctl fails) is reported ONCE, by
    DialAsync's return value: whatever happens afterwards, no callback and no close notification are ever delivered
